@@ -115,9 +115,11 @@ func cliMake(args []string) int {
 		c.Target = *target
 	}
 	if *mode == "badtms" {
-		c.Tms = []string{"WorldCRS84Quad", "CDB1GlobalGrid", "GNOSISGlobalGrid", "NoSuchTileMatrixSet", "WGS1984Quad", "UTM31WGS84Quad"}[rng.Intn(6)]
+		c.Tms = []string{"WorldCRS84Quad", "CDB1GlobalGrid", "GNOSISGlobalGrid", "NoSuchTileMatrixSet", "WGS1984Quad", "UTM31WGS84Quad",
+			"CanadianNAD83_LCC", "LINZAntarticaMapTilegrid"}[rng.Intn(8)]
 		c.ValidTms = false
-		c.Ids = []int{1, 2}
+		// also the root alone: a set that is no quadtree must be rejected whatever part of it is requested
+		c.Ids = [][]int{{1, 2}, {0}, {0, 1}, {2}}[rng.Intn(4)]
 	}
 	minZ := c.Ids[0]
 	for _, z := range c.Ids {
